@@ -111,6 +111,15 @@ CHECKS["C07"] = dict(category="exploration",
            "sub-selections must give identical protoclusters per rule.",
       note="Gene membership is read through Record.get_cds_features_within_location (C08). Records on which area creation raises are excluded and counted.",
       design="3/C07")
+CHECKS["C12"] = dict(category="exploration",
+      technique="Hypothesis annotated-record generator + deterministic family of area placements; round trip of every region file against an independent coordinate model of a region extract",
+      text="For generated records (linear/circular, several regions, regions touching the record ends, origin-spanning regions and genes, "
+           "several candidates/subregions, prepeptides, domains) every region is written with the real writer, the text is parsed with "
+           "Biopython and compared with an independently computed extract (sequence, multiset of shifted features in both directions, area "
+           "numbers 1..n in positional order, all cross references), reloaded with Record.from_genbank (exactly one region with the expected "
+           "content) and the parent record is compared before/after. 1078 deterministic placement cases plus sampled records.",
+      note="Trusted: Biopython GenBank I/O. Equal-coordinate areas are not judged for numbering (C10's tie question).",
+      design="3/C12")
 NOT_YET = {}
 
 def main():
